@@ -112,6 +112,9 @@ def run(ctx):
               b"--- a/f\n+++ b/f\n@@ -4611686018427387904,2 +5,2 @@\n aaa\n-b\n+c\n",
               b"--- a/f\n+++ b/f\n@@ -1,2 +0,0 @@\n-aaa\n-bbb\n@@ -3 +1 @@\n-ccc\n+CCC\n",   # seeded C11-d: not a deletion
               b"--- a/f\n+++ b/f\n@@ -0,0 +1 @@\n+top\n@@ -2 +3 @@\n-bbb\n+BBB\n",            # not a creation
+              b"--- a/f\n+++ b/f\n@@ -1,2 +1,2 @@\n aaa\n" + l2gen.LONG_UTF8 + b"\n",          # seeded C11-e: long non-ASCII line in an error
+              b"--- a/f\n+++ b/f\n@@ -1,2 +1,2 @@\n aaa\n" + l2gen.LONG_UTF8_ODD + b"\n",
+              b"--- a/f\n+++ b/f\n@@ -1 +1 " + l2gen.LONG_UTF8 + b"\n-a\n+b\n",
               b"", b"\n", b"@@ -1 +1 @@\n", b"--- \n+++ \n@@ -0,0 +1 @@\n+x\n", b"diff --git a b\nGIT binary patch\n"]
     cases = {"corpus": [{"strip": s, "wh": 0, "data": d} for d in corpus for s in (0, 1)]}
     cases["grammar"] = [{"strip": rng.choice([0, 1, 1, 2, 3]), "wh": rng.choice([0, 1]), "data": l2gen.gen_patch(rng)} for _ in range(2500 * k)]
